@@ -202,6 +202,54 @@ theorem parse_join (ns : List Nat) (hlen : ns.length = 32) (hlt : ∀ n ∈ ns, 
   have : (cs.map fun c => [c]) = (ns.map fun n => [hexChar n]) := by rw [← hcs]; simp
   rw [this, mapM_labelNibble _ hlt]
 
+theorem mapM_length {α β} (f : α → Option β) : ∀ (l : List α) (r : List β), l.mapM f = some r → r.length = l.length := by
+  intro l
+  induction l with
+  | nil => intro r h; simp at h; subst h; rfl
+  | cons x t ih =>
+    intro r h
+    rw [List.mapM_cons] at h
+    cases hx : f x with
+    | none => simp [hx] at h
+    | some y =>
+      cases ht : t.mapM f with
+      | none => simp [hx, ht] at h
+      | some r' =>
+        simp [hx, ht] at h
+        subst h
+        simp [ih r' ht]
+
+theorem pairUp_length : ∀ (n : Nat) (l : List Nat), l.length = 2 * n → (pairUp l).length = n := by
+  intro n
+  induction n with
+  | zero => intro l h; cases l with
+    | nil => rfl
+    | cons _ _ => simp at h
+  | succ k ih =>
+    intro l h
+    match l, h with
+    | a :: b :: t, h =>
+      simp only [pairUp, List.length_cons]
+      rw [ih t (by simp at h; omega)]
+
+theorem parse_length (n : Name) (a : IP) (h : parseIP6ArpaName n = some a) : a.length = 16 := by
+  unfold parseIP6ArpaName at h
+  simp only at h
+  split at h
+  · cases h
+  · split at h
+    · cases h
+    · rename_i h32
+      split at h
+      · cases h
+      · rename_i nibs hn
+        simp only [Option.some.injEq] at h
+        subst h
+        have := mapM_length _ _ _ hn
+        apply pairUp_length 16
+        simp only [List.length_reverse, this]
+        simpa using h32
+
 /-! ### TTL choice -/
 
 theorem foldl_min_le_init (l : List Nat) (t : Nat) :
@@ -370,6 +418,31 @@ theorem presentLabels_ends_with_dot (ls : List (List UInt8)) (h : ls ≠ []) :
 
 theorem lower_append (x y : Name) : lower (x ++ y) = lower x ++ lower y := by simp [lower]
 
+/-- the A-response-as-basis outcome of `synthesise` (RFC 6147 §5.1.6). -/
+theorem synthesise_abasis (c : Cfg) (q : Query) (orig : Down) (copied : Bool) (a : AResp)
+    (h : (synthesise c q orig copied a).kind = .abasis) :
+    a.err = .none ∧ (a.rcode ≠ 0 ∨ addrsOf a.ans = []) ∧ (synthesise c q orig copied a).rcode = a.rcode ∧
+    (synthesise c q orig copied a).ans = chainOf a.ans ∧ (synthesise c q orig copied a).ad = false ∧
+    (synthesise c q orig copied a).ns = a.ns := by
+  have fb : ∀ aq, (fallbackReply orig copied aq).kind ≠ .abasis := by
+    intro aq; cases copied <;> simp [fallbackReply, passReply]
+  unfold synthesise at h ⊢
+  cases he : a.err <;> simp only [he] at h ⊢
+  case none =>
+    by_cases hr : (a.rcode != 0) = true
+    · simp only [hr, if_true]
+      exact ⟨trivial, Or.inl (by simpa using hr), by simp⟩
+    · simp only [hr] at h ⊢
+      by_cases hemp : (addrsOf a.ans).isEmpty = true
+      · simp only [hemp, if_true]
+        exact ⟨trivial, Or.inr (by simpa using hemp), by simp⟩
+      · simp only [hemp] at h
+        by_cases hs : (synthAAAA c (addrsOf a.ans) (synthTTL (negativeAAAATTL orig.soas) ((addrsOf a.ans).map (·.ttl)))).isEmpty = true
+        · simp only [hs, if_true] at h
+          exact absurd h (fb 1)
+        · simp [hs] at h
+  all_goals (first | exact absurd h (fb _) | (simp at h; done))
+
 /-- a pass-through out of `synthesise` is the unfiltered original. -/
 theorem synthesise_pass (c : Cfg) (q : Query) (orig : Down) (copied : Bool) (a : AResp)
     (h : (synthesise c q orig copied a).kind = .pass) :
@@ -505,5 +578,11 @@ theorem ptrReply_props (q : Query) (qt : String) (v4 : IP) (a : AResp) :
     · refine ⟨by simp, by simp, by simp, ?_, fun _ => by simp [ptrSynthTTL]⟩
       intro r hr; simp at hr; subst hr; simp
   all_goals (refine ⟨by simp, by simp, by simp, ?_, ?_⟩ <;> simp [ptrSynthTTL])
+
+theorem ptrReply_not_abasis (q : Query) (qt : String) (v4 : IP) (a : AResp) : (ptrReply q qt v4 a).kind ≠ .abasis := by
+  unfold ptrReply
+  cases a.err <;> simp only
+  case none => split <;> simp
+  all_goals simp
 
 end SdnsVerif.Lemmas.Dns64
